@@ -37,7 +37,7 @@ int mpt_array_clone(MPT_STRUCT(array) *arr, const MPT_STRUCT(array) *from)
 			return MPT_ERROR(BadType);
 		}
 		/* increase buffer refcount */
-		if (!set->_vptr->addref(set)) {
+		if (set && !set->_vptr->addref(set)) {
 			return MPT_ERROR(BadOperation);
 		}
 	}
